@@ -179,7 +179,7 @@ def gen_plan_c07(rng, tier, idx, opts):
     mode = opts.get("mode", "sample")
     if mode == "sweep":
         return gen_sweep_plan(rng, tier, idx, opts)
-    big = tier == "thorough" and rng.random() < 0.06
+    big = rng.random() < (0.06 if tier == "thorough" else 0.015)
     if big:
         cfg = gen_config(rng, 2, [499, 500, 501, 1000, 1001])
     else:
@@ -233,7 +233,8 @@ def gen_sweep_plan(rng, tier, idx, opts):
     cfg["buffer"] = rng.choice([8192, 8192, None, 256])
     return {"world": "runner", "mode": "sweep", "config": cfg, "script": gen_script(rng, cfg),
             "clock_faults": gen_clock_faults(rng), "lookups": False,
-            "sweep": {"lines": bool(opts.get("sweep_lines", False)), "prefix_crash": rng.random() < 0.3}}
+            "sweep": {"lines": bool(opts.get("sweep_lines", False)),
+                      "prefix_crash": (round(rng.uniform(0.2, 0.95), 3) if rng.random() < 0.35 else None)}}
 
 
 def sweep_subplans(plan):
@@ -243,7 +244,19 @@ def sweep_subplans(plan):
     base = {k: v for k, v in plan.items() if k not in ("mode", "sweep")}
     base["incarnations"] = []
     inc = {"params": "P1", "call": {"kind": "all"}, "fault": None}
+    pc = plan["sweep"].get("prefix_crash")
+    if pc:
+        # crash during RECOVERY: a fixed first crash (position given as a fraction of the first run), then
+        # every crash point of the restarted incarnation is enumerated
+        k0, _, _ = dry_run(base, inc, lines=False)
+        if k0:
+            at = max(1, min(len(k0), int(pc * len(k0))))
+            f0 = {"at": at, "action": "kill_hard"}
+            if k0[at - 1] == "disk:write":
+                f0["keep"] = 0.5
+            base["incarnations"] = [dict(inc, fault=f0)]
     kinds, lines, _ = dry_run(base, inc, lines=plan["sweep"].get("lines", False))
+    pre = list(base["incarnations"])
     fin = {"params": "P1", "call": {"kind": "all"}, "fault": None}
     for i, kind in enumerate(kinds):
         for act in actions_for(kind):
@@ -255,13 +268,13 @@ def sweep_subplans(plan):
                 if kp is not None:
                     f["keep"] = kp
                 p = dict(base)
-                p["incarnations"] = [dict(inc, fault=f), fin]
+                p["incarnations"] = pre + [dict(inc, fault=f), fin]
                 yield p
     if plan["sweep"].get("lines") and isinstance(lines, list):
         for m in range(1, len(lines) + 1):
             for act in ("kill_hard", "kill_soft"):
                 p = dict(base)
-                p["incarnations"] = [dict(inc, fault={"line": m, "action": act}), fin]
+                p["incarnations"] = pre + [dict(inc, fault={"line": m, "action": act}), fin]
                 yield p
 
 
@@ -298,6 +311,8 @@ def execute_sweep(plan):
             # keep sweeping would only repeat the same class; stop this scenario
             break
     bump(agg["probes"], "sweep_scenarios")
+    if plan["sweep"].get("prefix_crash"):
+        bump(agg["probes"], "sweep_of_the_restart_after_a_first_crash")
     agg["nontrivial"] = True
     agg["digest"] = agg["digests"][0] if agg["digests"] else ""
     return agg
@@ -315,7 +330,7 @@ def execute(plan):
 # C05: fault-free histories on richer grids
 # --------------------------------------------------------------------------
 def gen_plan_c05(rng, tier, idx, opts):
-    big = tier == "thorough" and rng.random() < 0.03
+    big = rng.random() < (0.03 if tier == "thorough" else 0.008)
     if big:
         cfg = gen_config(rng, 3, [499, 500, 501, 1001], allow_none_name=True)
     else:
